@@ -498,6 +498,53 @@ func (g *Exec) convfmtChain(d int) *awk.Node {
 	return n
 }
 
+// selfAssign: "v = v OP e" (or "v OP= e", "v = e OP v") where evaluating e
+// itself changes v.  Operands are evaluated left to right, so the value of the
+// left "v" is taken before e runs: any shortcut that re-reads v afterwards (as an
+// augmented assignment does) changes the result.
+func (g *Exec) selfAssign() *awk.Node {
+	g.Feat["stmt-self-assign"]++
+	var v *awk.Node
+	switch g.n(0, 3, "savk") {
+	case 0, 1:
+		v = awk.VarN(g.scalarName())
+	case 2:
+		a := g.arrayName()
+		if a == g.forInOf {
+			v = awk.VarN(g.scalarName())
+		} else {
+			v = awk.IndexN(a, g.smallNum())
+		}
+	default:
+		v = awk.FieldN(awk.NumN(float64(g.n(1, 3, "saf"))))
+	}
+	cp := func() *awk.Node { return awk.Clone(v) }
+	var e *awk.Node
+	switch g.n(0, 5, "saek") {
+	case 0:
+		e = awk.IncrN(g.pick([]string{"++", "--"}, "saop"), false, cp())
+	case 1:
+		e = awk.IncrN(g.pick([]string{"++", "--"}, "saop"), true, cp())
+	case 2:
+		e = awk.GroupN(awk.AssignN(cp(), "=", g.smallNum()))
+	case 3:
+		e = awk.GroupN(awk.AssignN(cp(), g.pick([]string{"+=", "*=", "-="}, "saaug"), g.smallNum()))
+	case 4:
+		e = awk.CallN("sub", awk.RegexN("^."), awk.StrN("7"), cp())
+	default:
+		e = awk.BinN(g.smallNum(), "*", awk.IncrN("++", false, cp()))
+	}
+	op := g.pick([]string{"+", "-", "*", "/", "%", "^", " "}, "sabin")
+	switch g.n(0, 3, "sashape") {
+	case 0, 1:
+		return awk.AssignN(v, "=", awk.BinN(cp(), op, e))
+	case 2:
+		return awk.AssignN(v, "=", awk.BinN(e, op, cp()))
+	default:
+		return awk.AssignN(v, g.pick([]string{"+=", "-=", "*=", "/=", "%=", "^="}, "saaop"), e)
+	}
+}
+
 func (g *Exec) Stmt(d int) []*awk.Node {
 	k := g.n(0, 39, "sk")
 	if d <= 0 && k >= 22 && k < 34 {
@@ -506,6 +553,9 @@ func (g *Exec) Stmt(d int) []*awk.Node {
 	one := func(n *awk.Node) []*awk.Node { return []*awk.Node{n} }
 	switch {
 	case k < 8:
+		if g.n(0, 7, "selfassign") == 0 {
+			return one(awk.ExprS(g.selfAssign()))
+		}
 		g.Feat["stmt-assign"]++
 		return one(awk.ExprS(awk.AssignN(g.lvalue(2), g.assignOp(), g.rhs(2))))
 	case k < 11:
